@@ -489,13 +489,13 @@ def correspondence(ctx: Ctx):
              {**default_flags(), "ssl": 1, "keep_acs": 1, "estimate_smaps": 0}]
     for f in fixed:
         yield _verdict_case(ctx, rng, f, "verdict/fixed")
-    for _ in range(ctx.budget(90, 900)):
+    for _ in range(ctx.budget(90, 2000)):
         f = random_flags(rng)
         yield _verdict_case(ctx, rng, f, "verdict/" + ("ssl" if f["ssl"] else "sup"))
     # (2) every stage on its own
     yield from _stage_cases(ctx, rng)
     # (3) whole pipelines, exactly
-    for i in range(ctx.budget(150, 1500)):
+    for i in range(ctx.budget(150, 4000)):
         f = random_flags(rng, valid_only=True)
         f.update(rescale=0, pad=0, compress_coils=0, smap_gaussian=0, image_center_crop=1)
         nc = rng.choice([1, 2, 3, 4])
@@ -568,7 +568,7 @@ def oracle_configs(ctx: Ctx, deep: bool):
                      image_center_crop=int((recon + sm[1]) % 2 == 0), pad_coils=int(recon % 3 == 1),
                      compress_coils=0, body_coil=int(recon == 2), delete_acs=recon % 2)
             base.append(f)
-    n = ctx.budget(70, 900) * (3 if deep else 1)
+    n = ctx.budget(70, 2500) * (3 if deep else 1)
     for _ in range(n):
         base.append({**random_flags(rng, valid_only=True), "delete_kspace": rng.choice([0, 0, 1])})
     return base
